@@ -1,6 +1,160 @@
-import SR.Drv.Loop
-/-! Driver commands for C18 (stub). -/
+import SR.Drv.Sem
+import SR.Sem.RegisterClient
+/-! Driver commands for C18.
+Model side: `step`, `inv`, `hist` (reference objects), `rc-path` (register harness: client states and
+tester content after a path of model actions). Oracle side: `o-step`, `o-hist` (relations between
+the implementation's own `invoke` / `is_valid_step` / `is_valid_history` outputs), `o-c18`
+(well-formedness + mirror of the client-visible calls reconstructed from the path). -/
 namespace SR.Drv.C18
+open SR SR.Sem SR.Sem.RC SR.Drv.Sem
+
+def msgOf? : SExp → Option RMsg
+  | .atom "internal" => some .internal
+  | .list [.atom "put", r, v] => do pure (.put (← r.nat?) (← v.nat?))
+  | .list [.atom "get", r] => do pure (.get (← r.nat?))
+  | .list [.atom "putok", r] => do pure (.putOk (← r.nat?))
+  | .list [.atom "putfail", r] => do pure (.putFail (← r.nat?))
+  | .list [.atom "getok", r, v] => do pure (.getOk (← r.nat?) (← v.nat?))
+  | _ => none
+
+def sendOf? : SExp → Option Send := SExp.pairOf? SExp.nat? msgOf?
+
+def actorOf? : SExp → Option ActorDesc
+  | .list [.atom "s", outs] => do pure (.server (← outs.listOf? sendOf?))
+  | .list [.atom "c", p, s] => do pure (.client { putCount := ← p.nat?, serverCount := ← s.nat? })
+  | _ => none
+
+def actOf? : SExp → Option Act
+  | .atom "drop" => some .drop
+  | .list [.atom "dc", d, m] => do pure (.deliverC (← d.nat?) (← msgOf? m))
+  | .list [.atom "ds", d, m, ch, outs] => do pure (.deliverS (← d.nat?) (← msgOf? m) (← ch.bool?) (← outs.listOf? sendOf?))
+  | .list [.atom "ts", i, outs] => do pure (.timeoutS (← i.nat?) (← outs.listOf? sendOf?))
+  | _ => none
+
+def showClients (cs : List (Nat × CState)) : String :=
+  toString (SExp.list (cs.map fun e => .list [.ofNat e.1, SExp.ofOpt SExp.ofNat e.2.awaiting, .ofNat e.2.opCount]))
+
+def idShow (n : Nat) : String := s!"Id({n})"
+
+def rcRun {H Op Ret} (I : Iface H Op Ret) (h0 : H) (wo ordered : Bool) (actors : List ActorDesc)
+    (path : List Act) (show_ : H → String) : String :=
+  match RC.init I h0 actors with
+  | none => "panic"
+  | some s0 =>
+    match runPath I wo ordered actors s0 path with
+    | none => "not-a-step"
+    | some s => s!"clients={showClients s.clients} ;; dbg={show_ s.hist}"
+
+/-! ### the mirror oracle -/
+/-- client-visible events reconstructed from a path by the harness: `(send c msg)` / `(acc c msg)` -/
+inductive LogEv where
+  | send (c : Nat) (m : RMsg)
+  | acc (c : Nat) (m : RMsg)
+
+def logOf? : SExp → Option LogEv
+  | .list [.atom "send", c, m] => do pure (.send (← c.nat?) (← msgOf? m))
+  | .list [.atom "acc", c, m] => do pure (.acc (← c.nat?) (← msgOf? m))
+  | _ => none
+
+def LogEv.client : LogEv → Nat | .send c _ => c | .acc c _ => c
+
+def ridOf : RMsg → Option Nat
+  | .put r _ => some r | .get r => some r | .putOk r => some r | .putFail r => some r | .getOk r _ => some r
+  | .internal => none
+
+/-- operations and returns as S-expressions in the reference object's wire format -/
+def opSxOf : RMsg → Option SExp
+  | .put _ v => some (.list [.atom "w", .ofNat v])
+  | .get _ => some (.atom "r")
+  | _ => none
+def retSxOf (wo : Bool) : RMsg → Option SExp
+  | .putOk _ => some (.atom "wok")
+  | .putFail _ => if wo then some (.atom "wfail") else none
+  | .getOk _ v => some (.list [.atom "rok", if wo then SExp.ofOpt SExp.ofNat (some v) else .ofNat v])
+  | _ => none
+
+/-- per client: the completed (op, ret) pairs and the outstanding op, or an error -/
+def mirrorClient (wo : Bool) : List LogEv → List SExp → Option RMsg → Except String (List SExp × Option SExp)
+  | [], done, pend => .ok (done, pend.bind opSxOf)
+  | .send _ m :: rest, done, pend =>
+    match pend with
+    | some _ => .error "second-request-while-one-outstanding"
+    | none => match opSxOf m with
+      | none => .error "client-sent-non-request"
+      | some _ => mirrorClient wo rest done (some m)
+  | .acc _ m :: rest, done, pend =>
+    match pend with
+    | none => .error "reply-accepted-without-outstanding-request"
+    | some p =>
+      if ridOf p != ridOf m then .error "accepted-reply-for-other-request-id"
+      else match opSxOf p, retSxOf wo m with
+        | some o, some r => mirrorClient wo rest (done ++ [.list [o, r]]) none
+        | _, _ => .error "accepted-non-reply"
+
+def oracleMirror (wo : Bool) (log : List LogEv) (valid : Bool) (content : List (Nat × List SExp × Option SExp)) : String :=
+  let clients := (log.map LogEv.client).foldl (fun acc c => if acc.contains c then acc else acc ++ [c]) []
+  let errs : List String :=
+    (if !valid then ["tester-history-invalid"] else []) ++
+    (clients.flatMap fun c =>
+      let evs := log.filter (fun e => e.client == c)
+      let rids := evs.filterMap fun e => match e with | .send _ m => ridOf m | _ => none
+      (if nodupB rids then [] else [s!"request-id-reused-by-{c}"]) ++
+      (match mirrorClient wo evs [] none with
+       | .error e => [s!"{e}-client-{c}"]
+       | .ok (done, pend) =>
+         match content.find? (fun e => e.1 == c) with
+         | none => [s!"tester-has-no-thread-{c}"]
+         | some (_, d, p) => if d == done && p == pend then [] else [s!"tester-content-differs-from-mirror-client-{c}"])) ++
+    (content.flatMap fun e => if clients.contains e.1 then [] else
+      (if e.2.1.isEmpty && e.2.2.isNone then [] else [s!"tester-has-operations-of-non-client-{e.1}"]))
+  if errs.isEmpty then "ok" else " ".intercalate errs
+
+def contentOf? : SExp → Option (Nat × List SExp × Option SExp)
+  | .list [c, .list done, pend] => do pure (← c.nat?, done, ← SExp.optOf? some pend)
+  | _ => none
+
 def handle : Drv.Handler
+  | "step", [obj, op, ret] =>
+    withObj obj fun c => do
+      let op ← c.opOf? op; let r ← c.retOf? ret
+      let p := c.spec.isValidStep c.s0 op r
+      pure s!"{bstr p.1} {c.objSx p.2}"
+  | "inv", [obj, op] =>
+    withObj obj fun c => do
+      let op ← c.opOf? op
+      let p := c.spec.invoke c.s0 op
+      pure s!"{c.retSx p.2} {c.objSx p.1}"
+  | "hist", [obj, l] =>
+    withObj obj fun c => do
+      let l ← l.listOf? (pairOfSx? c)
+      let p := c.spec.validHistory c.s0 l
+      pure s!"{bstr p.1} {c.objSx p.2}"
+  -- implementation outputs only: expected ret, invoke's ret and object, is_valid_step's verdict and object
+  | "o-step", [ret, iret, istate, verdict, vstate] => do
+    let verdict ← verdict.bool?
+    pure (if verdict != (iret == ret) then "verdict-differs-from-invoke-and-compare"
+          else if verdict && vstate != istate then "accepted-step-leaves-different-object-than-invoke"
+          else "ok")
+  -- implementation outputs only: the history, the trace obtained by invoking its operations, the verdict
+  | "o-hist", [l, trace, verdict] => do
+    let verdict ← verdict.bool?
+    pure (if verdict == (l == trace) then "ok" else "is_valid_history-differs-from-invoking-from-initial-object")
+  | "rc-path", [kind, wo, net, actors, path] => do
+    let kind ← kind.str?; let wo ← wo.bool?; let net ← net.str?
+    let actors ← actors.listOf? actorOf?
+    let path ← path.listOf? actOf?
+    let ordered := net == "ordered"
+    match kind, wo with
+    | "lin", false => pure (rcRun regLin (Tester.new 63) wo ordered actors path (showLin (regCodec charShow 63) idShow))
+    | "sc", false => pure (rcRun regSC (SCTester.new 63) wo ordered actors path (showSC (regCodec charShow 63) idShow))
+    | "lin", true => pure (rcRun woLin (Tester.new none) wo ordered actors path (showLin (woCodec charShow none) idShow))
+    | "sc", true => pure (rcRun woSC (SCTester.new none) wo ordered actors path (showSC (woCodec charShow none) idShow))
+    | _, _ => none
+  | "o-c18", [wo, log, valid, content] => do
+    let wo ← wo.bool?; let valid ← valid.bool?
+    let log ← log.listOf? logOf?
+    let content ← content.listOf? contentOf?
+    pure (oracleMirror wo log valid content)
   | _, _ => none
+
 end SR.Drv.C18
